@@ -111,6 +111,40 @@ def chain_task(args):
             "ud": sum(1 for c in cases if "stickyud" in c["out"])}
 
 
+def stale_task(args):
+    """Conflicting claims of different generations: after one sticky round (generation 2 user data for everybody) one or
+    two members are given the user data of an OLDER generation that claims partitions now owned by others (a member
+    that was away for a rebalance): the newer claim wins, the result must still be valid and balanced."""
+    seeds, cfg, avoid = args
+    cases = []
+    for seed in seeds:
+        rng = random.Random(seed)
+        topics, parts, subs, _c = A.rand_input(rng, maxm=5, maxt=4, maxp=6)
+        case0, objs = A.assign_case(topics, parts, subs, enum=False, kinds=("sticky",), tag=f"stale0:{seed}")
+        if "sticky" not in objs or len(subs) < 2:
+            continue
+        raw = A.raw_of(objs["sticky"])
+        ud = {m: objs["sticky"][m].encode() for m in subs}
+        gens = {m: 2 for m in subs}
+        for b in rng.sample(sorted(subs), rng.randint(1, min(2, len(subs)))):
+            others = [(t, p) for m in subs if m != b for t, ps in raw[m] for p in ps
+                      if rng.random() < 0.8 or t in subs[b]]
+            own = [(t, p) for t, ps in raw[b] for p in ps]
+            claim = rng.sample(own, rng.randint(0, len(own))) + rng.sample(others, min(len(others), rng.randint(1, 3)))
+            by = {}
+            for t, p in claim:
+                by.setdefault(t, set()).add(p)
+            ud[b] = A.encode_raw([[t, sorted(ps)] for t, ps in sorted(by.items())])
+            gens[b] = 1
+        case, _ = A.assign_case(topics, parts, subs, enum=False, kinds=(), ud=ud, gen=gens, tag=f"stale:{seed}")
+        cases.append(case)
+    bad, st, gen = tlc.run_table("Assignors", cfg, cases, shard=4000, jobs=1, spec_dir=A.SPEC_DIR)
+    return {"n": len(cases), "evals": sum(len(c["out"]) + len(c["fail"]) for c in cases), "bad": [cases[j] for j in bad],
+            "states": st, "gen": gen, "samples": cases[:1],
+            "nontrivial": sum(1 for c in cases if A.assignable(c["parts"], c["subs"])),
+            "ud": sum(1 for c in cases if "stickyud" in c["out"])}
+
+
 def trigger_task(cfg):
     """Dedicated class: the known non-terminating input, on purpose."""
     subs = {m: s for m, (s, _p) in NONTERM["members"].items()}
@@ -129,6 +163,8 @@ def _task(a):
         return A.c14_enum_task(payload)
     if kind == "chain":
         return chain_task(payload)
+    if kind == "stale":
+        return stale_task(payload)
     return trigger_task(payload)
 
 
@@ -193,6 +229,9 @@ def run(ctx) -> Report:
     per = 100 if quick else 500
     seeds = [ctx.seed * 1_000_003 + j for j in range(nchains)]
     tasks += [("chain", (seeds[o:o + per], cfg, 5, sorted(avoid))) for o in range(0, nchains, per)]
+    nstale = 1400 if quick else 30000
+    pers = max(50, nstale // 28)
+    tasks += [("stale", (list(range(10**6 + o, 10**6 + min(o + pers, nstale))), cfg, sorted(avoid))) for o in range(0, nstale, pers)]
     tasks += [("trigger", cfg)]
     results = A.pool_map(_task, tasks, procs=10)
 
